@@ -1,7 +1,7 @@
 (* C11, analytic part (Coquelicot): integrals over the unit disk in separated form.
    - the azimuthal factors cos(m theta) / sin(m theta) are orthogonal over a full turn;
    - the model's rational power-rule integral [pinner] is the Riemann integral of R R' rho over [0,1];
-   - composed: the normalised modes are orthonormal (bounded: j, j' <= 231, i.e. n <= 20);
+   - composed: the normalised modes are orthonormal (bounded: j, j' <= 1326, i.e. n <= 50);
    - on the complex numbers the model's kernel expressions [kcos]/[ksin] are cos and sin. *)
 From Coq Require Import Reals Lra QArith Qreals Qcanon.
 From Coquelicot Require Import Coquelicot.
@@ -215,10 +215,10 @@ Lemma radial_terms_nonneg m n : (0 <= m)%Z -> nonneg_powers (radial_terms m n).
 Proof. intros Hm. unfold nonneg_powers, radial_terms. apply Forall_forall. intros t Ht.
   apply in_map_iff in Ht. destruct Ht as [k [<- Hk]]. apply zrange_In in Hk. cbn [fst]. lia. Qed.
 
-Lemma row_231 : row_exact 231 = 20%Z. Proof. vm_compute. reflexivity. Qed.
+Lemma row_1326 : row_exact 1326 = 50%Z. Proof. vm_compute. reflexivity. Qed.
 
 Theorem zernike_orthonormal j j' m n m' n' :
-  (1 <= j <= 231)%Z -> (1 <= j' <= 231)%Z -> noll j = (m, n) -> noll j' = (m', n') ->
+  (1 <= j <= 1326)%Z -> (1 <= j' <= 1326)%Z -> noll j = (m, n) -> noll j' = (m', n') ->
   exists Ir Ia : R,
     is_RInt (fun rho => Reval (radial_terms (Z.abs m) n) rho * Reval (radial_terms (Z.abs m') n') rho * rho) 0 1 Ir /\
     is_RInt (fun theta => Raz m theta * Raz m' theta) 0 (2 * PI) Ia /\
@@ -227,10 +227,10 @@ Proof.
   intros Hj Hj' E E'.
   pose proof (noll_wf j ltac:(lia)) as W. rewrite E in W. destruct W as [W0 [W1 [W2 _]]].
   pose proof (noll_wf j' ltac:(lia)) as W'. rewrite E' in W'. destruct W' as [W0' [W1' [W2' _]]].
-  assert (Hn : (n <= 20)%Z).
-  { replace n with (snd (noll j)) by (now rewrite E). unfold noll; cbn [snd]. rewrite <- row_231. apply row_mono; lia. }
-  assert (Hn' : (n' <= 20)%Z).
-  { replace n' with (snd (noll j')) by (now rewrite E'). unfold noll; cbn [snd]. rewrite <- row_231. apply row_mono; lia. }
+  assert (Hn : (n <= 50)%Z).
+  { replace n with (snd (noll j)) by (now rewrite E). unfold noll; cbn [snd]. rewrite <- row_1326. apply row_mono; lia. }
+  assert (Hn' : (n' <= 50)%Z).
+  { replace n' with (snd (noll j')) by (now rewrite E'). unfold noll; cbn [snd]. rewrite <- row_1326. apply row_mono; lia. }
   exists (Q2R (pinner (radial_terms (Z.abs m) n) (radial_terms (Z.abs m') n'))).
   exists (if (m =? m')%Z then (if (m =? 0)%Z then 2 * PI else PI) else 0).
   split; [apply pinner_is_integral; apply radial_terms_nonneg; lia|].
@@ -312,8 +312,8 @@ Lemma radial_Reval m n rho : Z.even (Z.abs n - Z.abs m) = true ->
   Q2R (radial m n rho) = Reval (radial_terms (Z.abs m) (Z.abs n)) (Q2R rho).
 Proof. intros He. unfold radial. rewrite <- Z.negb_even, He. cbn [negb]. apply Q2R_peval. Qed.
 
-(* radial orthogonality as a Riemann integral (bounded: n, n' <= 20) *)
-Theorem radial_orthogonality_RInt m n n' : (0 <= m)%Z -> (m <= n <= 20)%Z -> (m <= n' <= 20)%Z ->
+(* radial orthogonality as a Riemann integral (bounded: n, n' <= 50) *)
+Theorem radial_orthogonality_RInt m n n' : (0 <= m)%Z -> (m <= n <= 50)%Z -> (m <= n' <= 50)%Z ->
   Z.even (n - m) = true -> Z.even (n' - m) = true ->
   is_RInt (fun rho => Reval (radial_terms m n) rho * Reval (radial_terms m n') rho * rho) 0 1
           (if (n =? n')%Z then / (2 * IZR (n + 1)) else 0).
@@ -325,4 +325,17 @@ Proof.
     change (zQ (2 * (n + 1))) with (Z2Qc (2 * (n + 1))).
     rewrite Q2R_Qc_div, Q2R_Qc_1, Q2R_Z2Qc, mult_IZR by exact Hz. field. apply not_0_IZR. lia.
   - apply pinner_is_integral; apply radial_terms_nonneg; lia.
+Qed.
+
+(* R_n^m is orthogonal, with weight rho on [0,1], to every rho^(m+2s) with s < (n-m)/2 (bounded: n <= 50) *)
+Theorem radial_lower_moments_RInt m n s : (0 <= m <= n)%Z -> (n <= 50)%Z -> Z.even (n - m) = true ->
+  (0 <= s < (n - m) / 2)%Z ->
+  is_RInt (fun rho => Reval (radial_terms m n) rho * rho ^ Z.to_nat (m + 2 * s) * rho) 0 1 0.
+Proof.
+  intros Hm Hn He Hs.
+  apply (is_RInt_ext_R (fun rho => Reval (radial_terms m n) rho * Reval [((m + 2 * s)%Z, 1%Qc)] rho * rho)).
+  { intros x. rewrite Reval_cons, Reval_nil. cbn [fst snd]. rewrite Q2R_Qc_1. ring. }
+  apply (is_RInt_val _ _ _ (Q2R (pinner (radial_terms m n) [((m + 2 * s)%Z, 1%Qc)]))).
+  - rewrite radial_lower_moments by assumption. apply Q2R_Qc_0.
+  - apply pinner_is_integral; [apply radial_terms_nonneg; lia|]. repeat constructor. cbn [fst]. lia.
 Qed.
